@@ -640,6 +640,15 @@ type c29rop struct {
 	// Emitted as the sequential history Finish c; Start racer1; Start racer2 (the only order the
 	// lock region of error() allows). Racer key -1 = the key of the failing request.
 	racers [][2]int
+	// k == 4: lock convoy. The cache's mutex is held by the driver, the two sub-operations are
+	// issued (each blocks at its first lock region), the mutex is released. The outcome must be that
+	// of one of the two sequential orders; the order is read off the observation and emitted.
+	pair [2]c29sub
+}
+
+type c29sub struct {
+	start bool // Start(c, a) or Finish(c, error a)
+	c, a  int  // start: key -1 = the key of the request the other sub-operation finishes
 }
 
 func (o c29rop) coq() string {
@@ -893,6 +902,65 @@ func (s *c29rc) free(c int) bool {
 	return st == rsIdle || st == rsRet
 }
 
+// convoyOK: can o (k == 4) be run as a convoy now?  Otherwise it is skipped.
+func (s *c29rc) convoyOK(o *c29rop) bool {
+	if _, direct := s.sys.(*c29direct); !direct || o.pair[0].c == o.pair[1].c {
+		return false
+	}
+	for _, t := range s.th {
+		if atomic.LoadInt32(&t.st) == rsInStart {
+			return false
+		}
+	}
+	for _, p := range o.pair {
+		if p.c < 0 || p.c >= len(s.th) {
+			return false
+		}
+		if p.start && !s.free(p.c) {
+			return false
+		}
+		if !p.start && atomic.LoadInt32(&s.th[p.c].st) != rsInR {
+			return false
+		}
+	}
+	return o.pair[0].start || o.pair[1].start
+}
+
+func (s *c29rc) convoy(o *c29rop) bool {
+	d := s.sys.(*c29direct)
+	for i := range o.pair {
+		if o.pair[i].start && o.pair[i].a < 0 {
+			other := o.pair[1-i]
+			o.pair[i].a = s.th[other.c].key
+			if other.start {
+				o.pair[i].a = other.a
+			}
+		}
+	}
+	unlock := dedup.VerifRCHoldLock(d.rc)
+	for _, p := range o.pair {
+		if p.start {
+			s.launch(p.c, p.a)
+		} else {
+			s.th[p.c].fin <- c29errs[p.a]
+		}
+		if !c29waitQuiet() {
+			unlock()
+			return false
+		}
+	}
+	unlock()
+	if !c29waitQuiet() {
+		return false
+	}
+	for _, p := range o.pair {
+		if !p.start && atomic.LoadInt32(&s.th[p.c].st) == rsLeaving {
+			atomic.StoreInt32(&s.th[p.c].st, rsIdle)
+		}
+	}
+	return true
+}
+
 // raceOK: can o (k == 3) be run as a race now?  Otherwise it degrades to an ordinary Finish.
 func (s *c29rc) raceOK(o *c29rop) bool {
 	if _, direct := s.sys.(*c29direct); !direct || o.a == 0 || len(o.racers) == 0 {
@@ -1074,13 +1142,14 @@ func (c c29rcfg) coq() string {
 }
 
 type c29rcOut struct {
-	ops    []c29rop
-	obs    []string
-	enc    []string
-	runs   int
-	starts int
-	races  int
-	incon  bool
+	ops     []c29rop
+	obs     []string
+	enc     []string
+	runs    int
+	starts  int
+	races   int
+	convoys int
+	incon   bool
 }
 
 func c29rcRun(cfg c29rcfg, n int, via bool, next func(step int, sts []int32) *c29rop) c29rcOut {
@@ -1137,7 +1206,71 @@ func c29rcRun(cfg c29rcfg, n int, via bool, next func(step int, sts []int32) *c2
 		sts = after
 		return true
 	}
+	doConvoy := func(o c29rop) bool {
+		before, xs, cs := s.snapParts()
+		if !s.convoy(&o) {
+			res.incon = true
+			return false
+		}
+		after, fx, fc := s.snapParts()
+		// which sequential order explains the outcome: a Start that reports "pending" for the key of
+		// the other operation came first if the other is a Finish, second if it is a Start; a Start
+		// that had to wait for the worker of the Finish came second
+		first := 0
+		a, b := o.pair[0], o.pair[1]
+		pending := func(p c29sub) bool { return fx[p.c] == "QRet RPending" }
+		switch {
+		case a.start && b.start:
+			blocked := func(p c29sub) bool { return strings.HasPrefix(fx[p.c], "QBlocked") }
+			switch {
+			case pending(a) != pending(b): // the one that found the key taken came second
+				if pending(a) {
+					first = 1
+				}
+			case blocked(a) && !blocked(b): // the one that found no worker left came second
+				first = 1
+			}
+		case a.start && !b.start:
+			if !pending(a) {
+				first = 1
+			}
+		case !a.start && b.start:
+			if pending(b) {
+				first = 1
+			}
+		}
+		xs, cs = append([]string{}, xs...), append([]uint64{}, cs...)
+		for i, p := range []c29sub{o.pair[first], o.pair[1-first]} {
+			op := c29rop{k: 2, c: p.c, a: p.a, next: -1}
+			if p.start {
+				op.k = 1
+				res.starts++
+			}
+			xs[p.c], cs[p.c] = fx[p.c], fc[p.c]
+			if i == 1 {
+				xs, cs = fx, fc
+			}
+			so, se := c29joinSnap(xs, cs)
+			res.ops = append(res.ops, op)
+			res.obs = append(res.obs, so)
+			res.enc = append(res.enc, se)
+		}
+		res.convoys++
+		for i, st := range after {
+			if st == rsInR && before[i] != rsInR {
+				res.runs++
+			}
+		}
+		sts = after
+		return true
+	}
 	do = func(o c29rop) bool {
+		if o.k == 4 {
+			if s.convoyOK(&o) {
+				return doConvoy(o)
+			}
+			return true
+		}
 		if o.k == 3 {
 			if s.raceOK(&o) {
 				return doRace(o)
@@ -1223,6 +1356,12 @@ func c29rcEmit(ctx *verifhlib.Ctx, cfg c29rcfg, n int, r c29rcOut, kind string) 
 	if r.races > 0 {
 		tags = append(tags, "start-during-error-recording")
 	}
+	for i := 0; i < r.convoys; i++ {
+		hist = append(hist, "RLockConvoy")
+	}
+	if r.convoys > 0 {
+		tags = append(tags, "lock-convoy")
+	}
 	ctx.Emit(verifhlib.Case{Coq: coq, NT: r.runs >= 1 && r.starts >= 2, Kind: kind, Hist: hist, Incon: r.incon, Tags: tags,
 		Sample: map[string]interface{}{"config": cfg.coq(), "threads": n, "ops": ops, "obs": r.obs, "starts_during_error_recording": r.races}})
 }
@@ -1242,6 +1381,7 @@ func c29rcSeeds(ctx *verifhlib.Ctx) {
 	S := func(c, k int) c29rop { return c29rop{k: 1, c: c, a: k} }
 	F := func(c, e int) c29rop { return c29rop{k: 2, c: c, a: e} }
 	R := func(c, e int, racers ...[2]int) c29rop { return c29rop{k: 3, c: c, a: e, racers: racers} }
+	C := func(a, b c29sub) c29rop { return c29rop{k: 4, pair: [2]c29sub{a, b}} }
 	cfg := c29rcfg{nf: 20, er: 10, clean: 4, workers: 1, busy: 7}
 	seeds := []struct {
 		name string
@@ -1270,6 +1410,13 @@ func c29rcSeeds(ctx *verifhlib.Ctx) {
 			[]c29rop{S(0, 1), S(3, 2), R(0, 1, [2]int{1, -1}, [2]int{2, 2}), S(1, 1), F(3, 3), S(2, 2)}},
 		{"rc-seed-two-starts-during-error", c29rcfg{nf: 20, er: 10, clean: 4, workers: 3, busy: 7}, 3,
 			[]c29rop{S(0, 2), R(0, 3, [2]int{1, -1}, [2]int{2, -1}), S(0, 2)}},
+		// lock convoys: two operations queued behind the cache's mutex; either order is legal
+		{"rc-seed-convoy-reserve-reserve", c29rcfg{nf: 20, er: 10, clean: 4, workers: 2, busy: 7}, 3,
+			[]c29rop{C(c29sub{true, 0, 1}, c29sub{true, 1, 1}), S(2, 1), C(c29sub{true, 2, 2}, c29sub{true, 1, 2})}},
+		{"rc-seed-convoy-release-start", c29rcfg{nf: 20, er: 10, clean: 4, workers: 2, busy: 7}, 3,
+			[]c29rop{S(0, 1), C(c29sub{false, 0, 0}, c29sub{true, 1, -1}), S(2, 1)}},
+		{"rc-seed-convoy-error-start", c29rcfg{nf: 20, er: 10, clean: 4, workers: 2, busy: 7}, 3,
+			[]c29rop{S(0, 1), C(c29sub{true, 1, -1}, c29sub{false, 0, 2}), S(2, 1), T(11), S(2, 1)}},
 		{"rc-seed-disabled-ops", cfg, 2, []c29rop{F(0, 2), S(0, 1), S(0, 2), F(1, 0), F(0, 0), F(0, 0)}},
 	}
 	for _, sd := range seeds {
@@ -1323,6 +1470,41 @@ func c29rcRandom(ctx *verifhlib.Ctx, r *verifhlib.Rng, thorough bool) {
 			return &c29rop{k: 0, dt: dt}
 		}
 		o := cands[r.Intn(len(cands))]
+		if len(cands) >= 2 && r.Chance(15) {
+			// lock convoy of two candidate operations on different threads, preferably about one key
+			p := cands[r.Intn(len(cands))]
+			if p.c != o.c && (p.k == 1 || o.k == 1) {
+				sub := func(x c29rop) c29sub { return c29sub{start: x.k == 1, c: x.c, a: x.a} }
+				a, b := sub(o), sub(p)
+				if a.start && r.Chance(70) {
+					a.a = -1
+				} else if b.start && r.Chance(70) {
+					b.a = -1
+				}
+				return &c29rop{k: 4, pair: [2]c29sub{a, b}}
+			}
+		}
+		if o.k == 2 && o.a != 0 && r.Chance(45) {
+			// let one or two free threads call Start while this failure is being recorded
+			var free []int
+			for c, st := range sts {
+				if st == rsIdle || st == rsRet {
+					free = append(free, c)
+				}
+			}
+			if len(free) > 0 {
+				i := r.Intn(len(free))
+				o.k, o.racers = 3, [][2]int{{free[i], -1}}
+				if len(free) > 1 && r.Chance(40) {
+					j := (i + 1 + r.Intn(len(free)-1)) % len(free)
+					k2 := -1
+					if r.Bool() {
+						k2 = r.Range(1, nkeys)
+					}
+					o.racers = append(o.racers, [2]int{free[j], k2})
+				}
+			}
+		}
 		return &o
 	}
 	res := c29rcRun(cfg, n, false, next)
